@@ -19,11 +19,12 @@ Print Assumptions C14_column_in_range.
 (* the five kernels that map a key to its counters (three count-min query kernels, heavy-hitter _add and
    _max_count) compute the column with exactly this expression inside their loop over the rows: re-read from the
    source on every run *)
+From Sketchnu Require RowHashSites.
 Theorem C14_row_seed_in_source :
   let e := "for row in range(depth): fasthash64(key, row) % width"%string in
   Consts.rowhash_query_linear = e /\ Consts.rowhash_query_log16 = e /\ Consts.rowhash_query_log8 = e /\
   Consts.rowhash_hh_add = e /\ Consts.rowhash_hh_max_count = e.
-Proof. exact rowhash_sites_ok. Qed.
+Proof. exact RowHashSites.rowhash_sites_ok. Qed.
 Print Assumptions C14_row_seed_in_source.
 
 (* for a fixed key, seed -> fasthash64 key seed is injective on [0, 2^64) *)
